@@ -114,3 +114,25 @@ M("c13-skip-last-quark", "C13", CFD + "light/kernels.py", "        if skip_heavy
 M("c13-eta-constant", "C13", CCF, "        eta_phZ = (Q2 / (self.theory_config[\"MZ2\"] + Q2)) / (", "        eta_phZ = (1.0 / (self.theory_config[\"MZ2\"] + 1.0)) / (", expect="C13.em")
 M("c13-projectile-sign-nc", "C13", CCF, "                return self.electric_charge[abs(projectile_pid)] * (\n                    projectile_v + pol * projectile_a\n                )", "                return np.sign(projectile_pid) * self.electric_charge[abs(projectile_pid)] * (\n                    projectile_v + pol * projectile_a\n                )", expect="C13.pol")
 B("c13-rename-rest", "C13", CFD + "kernels.py", "    if rest == 0 and is_pv:\n        tot_ch_sq *= -1\n", "    if is_pv and not rest:\n        tot_ch_sq = -tot_ch_sq\n")
+
+# ----------------------------------------------------------------------------- C05
+SVF = "esf/scale_variations.py"
+SPF = CFD + "splitting_functions/__init__.py"
+M("c05-ren-2beta0", "C05", SVF, "(3, 1, 2): +2 * beta0,", "(3, 1, 2): +beta0,", expect="C05.rge")
+M("c05-ren-beta0sq", "C05", SVF, "(3, 2, 1): +(beta0**2),", "(3, 2, 1): +(beta0),", expect="C05.rge")
+M("c05-ren-beta1", "C05", SVF, "(3, 1, 1): +beta.beta_qcd_as3(nf),", "(3, 1, 1): +beta.beta_qcd_as2(nf),", expect="C05.rge")
+M("c05-binom-sign", "C05", SVF, "binomial = binom(n, j) * (-1) ** j", "binomial = binom(n, j)", expect="C05.rge")
+M("c05-binom-key", "C05", SVF, "((o[0], o[1], j, n - j + o[3]), (binomial * k[0], k[1], k[2]))", "((o[0], o[1], n - j, j + o[3]), (binomial * k[0], k[1], k[2]))", expect="C05.rge")
+M("c05-swap-nsp-nsm", "C05", SPF, '(br.non_singlet_pids_map["ns+"], 0): matrices["P_nsp_1", nf],\n                    (br.non_singlet_pids_map["ns-"], 0): matrices["P_nsm_1", nf],', '(br.non_singlet_pids_map["ns+"], 0): matrices["P_nsm_1", nf],\n                    (br.non_singlet_pids_map["ns-"], 0): matrices["P_nsp_1", nf],', expect="C05.rge")
+M("c05-c211-beta0", "C05", SPF, "    return matrices[lab, nf] - beta0\n", "    return matrices[lab, nf]\n", expect="C05.rge")
+M("c05-c220-half", "C05", SPF, "    return 0.5 * (\n        sum(matrices[lab, nf] for lab in labs[0])", "    return 1.0 * (\n        sum(matrices[lab, nf] for lab in labs[0])", expect="C05.rge")
+M("c05-c220-sign", "C05", SPF, "        - beta.beta_qcd_as2(nf) * matrices[labs[1], nf]", "        + beta.beta_qcd_as2(nf) * matrices[labs[1], nf]", expect="C05.rge")
+M("c05-filter-swap", "C05", SVF, "        if not self.activate_ren:\n            return filter(lambda e: e[0][2] == 0, ren_kers)", "        if not self.activate_ren:\n            return filter(lambda e: e[0][3] == 0, ren_kers)", expect="C05.rge")
+M("c05-intrinsic-common", "C05", "esf/esf.py", '            if cfe.channel != "intrinsic":', '            if cfe.channel != "intrinsicX":', expect="C05.rge")
+M("c05-qg-c211", "C05", SPF, '    if lab in ["P_gq_0", "P_qg_0"]:', '    if lab in ["P_gq_0"]:', expect="C05.rge")
+M("c05-singlet-label", "C05", SPF, '(("P_qq_0^2", "P_qg_0P_gq_0"), "P_qq_0"), matrices, nf', '(("P_qq_0^2", "P_qq_0P_qg_0"), "P_qq_0"), matrices, nf', expect="C05.rge")
+M("c05-registry-crosswire", "C05", CFD + "splitting_functions/nlo/__init__.py", '    "P_nsp_1": pnsp1,\n    "P_nsm_1": pnsm1,', '    "P_nsp_1": pnsm1,\n    "P_nsm_1": pnsp1,', expect="C05.labels")
+M("c05-nf-source", "C05", "esf/esf.py", "sv_manager.apply_common_scale_variations(ker_orders, cfc.nf)", "sv_manager.apply_common_scale_variations(ker_orders, self.info.nf_ff)", expect="C05.rge")
+M("c05-proj-transpose", "C05", SVF, "                        ((target, oqed, 0, lnf), (partons_proj.T, val_sv, err_sv))", "                        ((target, oqed, 0, lnf), (partons_proj.T[::-1], val_sv, err_sv))", expect="C05.rge")
+B("c05-dict-ctor", "C05", SVF, "        ren_coeffs = {\n            (2, 1, 1): +beta0,\n            (3, 1, 2): +2 * beta0,\n            (3, 1, 1): +beta.beta_qcd_as3(nf),\n            (3, 2, 1): +(beta0**2),\n        }", "        ren_coeffs = dict([((2, 1, 1), beta0), ((3, 1, 2), beta0 + beta0), ((3, 1, 1), beta.beta_qcd_as3(nf)), ((3, 2, 1), beta0 * beta0)])")
+B("c05-rename-c211", "C05", SPF, "def c211(lab, matrices, nf):", "def c211(lab, matrices, nf, _unused=None):")
